@@ -380,3 +380,5 @@ _SWAP_NEW = "                    if self.is_implicit and not self.solver_dict.ge
 V("C10-t-override-after-newton", "C10", "C10.5", (ITY, _SWAP_OLD, _SWAP_NEW))
 V("C12-t-override-after-newton", "C12", "C12.7", (ITY, _SWAP_OLD, _SWAP_NEW))
 V("C02-t-override-after-newton", "C02", "C02.4", (ITY, _SWAP_OLD, _SWAP_NEW))
+V("C10-u-class-property-read", "C10", "C10.6", (DS, "if self.__method.symplectic and issubclass(self.__method, integrators.ExplicitSymplecticIntegrator):", "if self.__method.symplectic and not self.__method.is_implicit:"))
+V("C10-v-missing-backend-name", "C10", "C10.6", (ITY, "self.staggered_mask = D.ar_numpy.astype(D.ar_numpy.asarray(staggered_mask, like=self.tableau_intermediate), ", "self.staggered_mask = D.astype(D.ar_numpy.asarray(staggered_mask, like=self.tableau_intermediate), "))
